@@ -49,7 +49,7 @@ func bigCases(r *rand.Rand, thorough bool) []Case {
 			return sb.String()
 		}
 		for _, n := range []int{d - 1, d, d + 1} {
-			for _, m := range []string{"GET", "POST", "DELETE"} {
+			for _, m := range []string{"GET", "POST", "DELETE", "MKCALENDAR"} {
 				cs.Reqs = append(cs.Reqs,
 					Req{m, build("/P", n, val)},
 					Req{m, build("/P", n, val) + "/tail"},
